@@ -9,7 +9,7 @@ import numpy as np
 
 PROPERTY = "C04"
 CLAIM = dict(
-    text="Every call site of an alphabet of 19 date-consuming public operations (SGP4 wrapper and native SGP4, Kepler, "
+    text="Every call site of an alphabet of 26 date-consuming public operations (SGP4 wrapper and native SGP4, Kepler, "
     "J2, numerical Kepler with maneuvers, Clohessy-Wiltshire with a maneuver, analytical Sun/Moon, JPL ephemeris, frame "
     "changes through both IAU chains, ephemeris interpolation and re-sampling, node events, station visibility events, "
     "TLE writer, OPM/OEM/OMM writers and readers in KVN and XML) is executed for the full product of the 6 labels of "
@@ -27,7 +27,7 @@ RULE = (
     "non-trivial = at least one label differs from UTC (the all-UTC case is the reference itself); distinct by that tuple"
 )
 BOUNDS = {
-    "quick": "19 operations x 4 instants x 6x6 labels (x 6 maneuver labels where present), all of it",
+    "quick": "26 call sites x 4 instants x 6x6 labels (x 6 maneuver labels where present), all of it",
     "thorough": "same product (the space is finite and small; nothing to deepen)",
 }
 ASSUMPTIONS = [
@@ -163,6 +163,23 @@ def op_sgp4beta(d):
     p = Sgp4Beta()
     p.orbit = tle_orbit(d["E"])
     r = p.propagate(d["A"])
+    return {"state": ("state", sv6(r), "inertial", r.date), "date": ("date", r.date)}
+
+
+def op_sgp4_td(d):
+    from beyond.dates import timedelta
+
+    r = tle_orbit(d["E"]).propagate(timedelta(seconds=DT))
+    return {"state": ("state", sv6(r), "inertial", r.date), "date": ("date", r.date)}
+
+
+def op_sgp4beta_td(d):
+    from beyond.propagators.sgp4beta import Sgp4Beta
+    from beyond.dates import timedelta
+
+    p = Sgp4Beta()
+    p.orbit = tle_orbit(d["E"])
+    r = p.propagate(timedelta(seconds=DT))
     return {"state": ("state", sv6(r), "inertial", r.date), "date": ("date", r.date)}
 
 
@@ -386,6 +403,8 @@ E_, A_ = frozenset({"eop"}), frozenset({"arith"})
 OPS = {
     "sgp4": (op_sgp4, "EA", "Sgp4.propagate", frozenset()),
     "sgp4beta": (op_sgp4beta, "EA", "Sgp4Beta.propagate", frozenset()),
+    "sgp4_td": (op_sgp4_td, "E", "Sgp4.propagate(timedelta)", A_),
+    "sgp4beta_td": (op_sgp4beta_td, "E", "Sgp4Beta.propagate(timedelta)", A_),
     "kepler": (op_kepler, "EA", "Kepler.propagate", frozenset()),
     "j2": (op_j2, "EA", "J2.propagate", frozenset()),
     "keplernum": (op_keplernum, "EAM", "KeplerNum.propagate", A_),
